@@ -138,9 +138,21 @@ def gen_server(rng, stats, nops):
             a = fuzz_asdu(rng, stats=stats)
             lines.append("rxi %s %s" % (v, hx(a)) if len(a) else "rx %s %s" % (v, hx(fuzz_apdu(rng, stats))))
             lines.append("tick")
-        elif r < 50:
+        elif r < 45:
             lines.append("rx %s %s" % (v, hx(fuzz_apdu(rng, stats))))
             lines.append("tick")
+        elif r < 50:   # flood of well-formed commands whose answers nobody acknowledges (the k window closes, answers are parked until
+                       # the response ring is full), then acknowledgements window by window
+            n = rng.range(13, 45)
+            cmd = rng.choice([apci.asdu(100, 6, 1, bytes([0, 0, 0, 20])), apci.asdu(101, 6, 1, bytes([0, 0, 0, 5])), apci.asdu(103, 6, 1, bytes(3) + bytes(7))])
+            for j in range(n):
+                lines.append("rxi %s %s" % (v, hx(cmd)))
+                if rng.chance(1, 2):
+                    lines.append("tick")
+            lines.append("tick 2")
+            for _ in range(rng.range(1, 5)):
+                lines += ["rxs %s" % v, "tick %d" % rng.range(1, 14)]
+            stats["command-flood"] = stats.get("command-flood", 0) + 1
         elif r < 60:   # several frames, arbitrary segmentation
             data = b"".join(apci.i_frame(rng.below(4), 0, fuzz_asdu(rng, stats=stats)) if rng.chance(1, 2) else fuzz_apdu(rng, stats) for _ in range(rng.range(1, 4)))
             for c in chunks(rng, data):
